@@ -97,6 +97,7 @@ func c02Sources() []source {
 		{"gsi1", "g", append(append([]string{}, ixGPool...), "zz"), "", nil},
 		{"gsi2", "g", append(append([]string{}, ixGPool...), "zz"), "s", ixSPool},
 		{"lsi1", "h", append(append([]string{}, ixHashPool...), "zz"), "s", ixSPool},
+		{"lsi2", "h", append(append([]string{}, ixHashPool...), "zz"), "g", ixGPool},
 		{"gsi4", "r", []string{ixRangePool[0], ixRangePool[1], ixRangePool[3], "zz"}, "h", ixHashPool},
 	}
 }
